@@ -12,6 +12,7 @@ mod sim_a;
 mod sim_b;
 mod sim_c;
 mod sim_client;
+mod sim_e;
 mod sim_f;
 mod world;
 
@@ -34,6 +35,7 @@ fn dispatch_run(prop: &str, opts: &Opts) -> i32 {
         "C10" => kit::run_batch(&sim_f::SimF, opts).exit_code,
         "C07" => kit::run_batch(&sim_c::SimC7, opts).exit_code,
         "C04" => kit::run_batch(&sim_c::SimC4, opts).exit_code,
+        "C08" => kit::run_batch(&sim_e::SimE, opts).exit_code,
         other => {
             eprintln!("HARNESS-ERROR: no simulator registered for property {other}");
             2
@@ -53,6 +55,7 @@ fn dispatch_replay(file: &serde_json::Value, verif_dir: &str) -> i32 {
         "C10" => kit::replay(&sim_f::SimF, file, verif_dir),
         "C07" => kit::replay(&sim_c::SimC7, file, verif_dir),
         "C04" => kit::replay(&sim_c::SimC4, file, verif_dir),
+        "C08" => kit::replay(&sim_e::SimE, file, verif_dir),
         other => {
             eprintln!("HARNESS-ERROR: no simulator registered for property {other}");
             2
